@@ -197,6 +197,13 @@ func (vc *VC) execFrom(fr *Frame, st *State, b *ssa.BasicBlock, idx int) []Outco
 			if c.IsFalse() {
 				return vc.jump(fr, st, b, b.Succs[1])
 			}
+			// a condition already decided on this path is not forked again
+			if known, val := st.decided(c); known {
+				if val {
+					return vc.jump(fr, st, b, b.Succs[0])
+				}
+				return vc.jump(fr, st, b, b.Succs[1])
+			}
 			fr2, st2 := fr.Clone(), st.Clone()
 			st.Assume(c)
 			st2.Assume(Not(c))
@@ -396,7 +403,7 @@ func (vc *VC) jump(fr *Frame, st *State, from, to *ssa.BasicBlock) []Outcome {
 		}
 		for _, inv := range lc.Invariants {
 			t := vc.evalSpecTerm(fr, st, inv.Expr, nil)
-			st.Assume(t)
+			st.Fact(t)
 		}
 		if lc.Decreases != nil {
 			fr.loopM0[to] = vc.evalSpecTerm(fr, st, lc.Decreases, nil)
@@ -511,7 +518,7 @@ func (vc *VC) havocVal(v Val, T types.Type, name string, st *State) Val {
 		t := vc.freshTerm(name, x.S)
 		t.Signed = x.Signed
 		if T != nil {
-			st.Assume(vc.typeRange(t, T))
+			st.Fact(vc.typeRange(t, T))
 		}
 		return t
 	case StructVal:
@@ -546,18 +553,18 @@ func (vc *VC) havocVal(v Val, T types.Type, name string, st *State) Val {
 		n := x
 		n.Pos = vc.freshTerm(name+".pos", x.Pos.S)
 		n.Pos.Signed = true
-		st.Assume(vc.iLe(x.Pos, n.Pos, true))
-		st.Assume(vc.iLe(n.Pos, x.Len, true))
+		st.Fact(vc.iLe(x.Pos, n.Pos, true))
+		st.Fact(vc.iLe(n.Pos, x.Len, true))
 		return n
 	case BuilderObj:
 		l := vc.freshTerm(name+".len", x.Len.S)
 		l.Signed = true
-		st.Assume(vc.iLe(vc.likeIdx(l, 0), l, true))
+		st.Fact(vc.iLe(vc.likeIdx(l, 0), l, true))
 		return BuilderObj{Len: l}
 	case OnceObj:
 		// a Once only ever moves from not-done to done
 		d := vc.freshTerm(name+".done", SBool)
-		st.Assume(Implies(x.Done, d))
+		st.Fact(Implies(x.Done, d))
 		return OnceObj{Done: d}
 	case SliceVal:
 		if T != nil {
@@ -1490,7 +1497,90 @@ func (vc *VC) callStatic(fr *Frame, st *State, fn *ssa.Function, args []Val, bin
 	if fc != nil && fc.Modular && !(fr == nil) && !vc.eng.forceInline[fn] {
 		return vc.callModular(fr, st, fn, fc, args, pos)
 	}
-	return vc.callFunction(fn, args, bind, st, fr)
+	base := len(st.pc)
+	w0 := st.extWrites
+	pre := st.Clone()
+	outs := vc.callFunction(fn, args, bind, st, fr)
+	return vc.mergePure(pre, base, w0, outs)
+}
+
+// mergePure joins the outcomes of an inlined call that had no effect on memory visible to
+// the caller into one outcome (return values as ite over the path guards). This keeps
+// chains of small pure helpers (quantisers, table look-ups) from multiplying paths.
+func (vc *VC) mergePure(pre *State, base int, w0 int, outs []Outcome) []Outcome {
+	if len(outs) < 2 {
+		return outs
+	}
+	for _, o := range outs {
+		if o.Panic || o.St.extWrites != w0 || o.St.panicking {
+			return outs
+		}
+		for _, r := range o.Ret {
+			if !isScalarTree(r) {
+				return outs
+			}
+		}
+		// the common prefix must be intact
+		if len(o.St.pc) < base {
+			return outs
+		}
+	}
+	st := pre
+	var res []Val
+	first := true
+	for i := len(outs) - 1; i >= 0; i-- {
+		o := outs[i]
+		var guards, facts []Term
+		for k := base; k < len(o.St.pc); k++ {
+			if k < len(o.St.isFact) && o.St.isFact[k] {
+				facts = append(facts, o.St.pc[k])
+			} else {
+				guards = append(guards, o.St.pc[k])
+			}
+		}
+		cond := And(guards...)
+		for _, f := range facts {
+			st.Fact(Implies(cond, f))
+		}
+		if first {
+			res = append([]Val(nil), o.Ret...)
+			first = false
+			continue
+		}
+		for k := range res {
+			res[k] = vc.iteVal(cond, o.Ret[k], res[k])
+		}
+	}
+	return []Outcome{{St: st, Ret: res}}
+}
+
+func isScalarTree(v Val) bool {
+	switch x := v.(type) {
+	case Term:
+		return true
+	case StructVal:
+		for _, f := range x.F {
+			if !isScalarTree(f) {
+				return false
+			}
+		}
+		return true
+	case ArrVal:
+		for _, f := range x.E {
+			if !isScalarTree(f) {
+				return false
+			}
+		}
+		return true
+	case TupleVal:
+		for _, f := range x {
+			if !isScalarTree(f) {
+				return false
+			}
+		}
+		return true
+	}
+	return false
 }
 
 
